@@ -1688,11 +1688,18 @@ pub fn lookup(seed: u64, focus: Focus, rep: &mut Report) {
                 let mut told: Vec<(usize, Duration, Id)> = Vec::new(); // (lookup, when, candidate)
                 let mut parts: HashMap<(usize, Vec<u8>), (u64, Vec<Vec<u8>>)> = HashMap::new();
                 let mut sent_by: Vec<(usize, Duration)> = Vec::new();
+                // every packet that may stand for a request to a node: (when, the lookup it belongs
+                // to if the wire tells, whether it is an undecodable "random" packet). A random
+                // packet belongs to the request that the handshake following it carries (one
+                // request at a time opens a session; the others wait behind it); only the last
+                // random packet before a handshake is attributed, every other one stays anybody's.
+                let mut pkts: HashMap<Id, Vec<(Duration, Option<usize>, bool)>> = HashMap::new();
                 for (at, e) in &s.w.trace[pos0..] {
                     match e {
                         WEv::Sent { node: Some(i), kind, msg, .. } => {
                             if *kind == "random" {
                                 contacted.insert(s.w.id(*i));
+                                pkts.entry(s.w.id(*i)).or_default().push((*at, None, true));
                             }
                             if let Some(RefMessage::FindNode { id, distances }) = msg {
                                 contacted.insert(s.w.id(*i));
@@ -1702,6 +1709,18 @@ pub fn lookup(seed: u64, focus: Focus, rep: &mut Report) {
                                 if let Some(k) = o {
                                     sent_by.push((k, *at));
                                 }
+                                let v = pkts.entry(pid).or_default();
+                                if *kind == "handshake" && o.is_some() {
+                                    if let Some(last) = v.last_mut() {
+                                        if last.2 && last.1.is_none() {
+                                            last.1 = o;
+                                        }
+                                    }
+                                }
+                                v.push((*at, o, false));
+                            } else if msg.is_some() || *kind == "handshake" || *kind == "message" {
+                                // any other packet to the node ends the run of random packets
+                                pkts.entry(s.w.id(*i)).or_default().push((*at, None, false));
                             }
                         }
                         WEv::Injected { node: Some(i), msg: Some(RefMessage::Nodes { id, records, total }), .. } => {
@@ -1743,6 +1762,29 @@ pub fn lookup(seed: u64, focus: Focus, rep: &mut Report) {
                     rep.count("sys_overlapping_lookups_judged_for_completeness");
                     if !skipped.is_empty() {
                         s.flag(rep, Focus::C10, "C10:candidate-not-contacted", format!("a lookup running next to others returned {} nodes without being cut off, yet {} candidates named in answers to its own requests were never contacted by anybody ({:?})", result.len(), skipped.len(), &skipped[..skipped.len().min(4)]), json!({"overlapping": k + 1, "target": hx(target)}));
+                    }
+                    // ... and by this very lookup: a candidate named to it is not done with because
+                    // another lookup asked the same node. Judged where the wire tells the lookups
+                    // apart: every packet sent to the candidate since this lookup began belongs,
+                    // demonstrably, to another one.
+                    if !full {
+                        let others_only: Vec<String> = told.iter().filter(|(l, at, x)| *l == k && *at < *done && sent_by.iter().any(|(o, t)| *o == k && *t > *at + Duration::from_millis(1)) && announced.contains(x) && *x != vid && s.w.node_by_id(x).is_some())
+                            .filter(|(_, _, x)| match pkts.get(x) {
+                                Some(v) => {
+                                    // (a request of this lookup may also have waited behind a handshake
+                                    // that another request had opened before the lookup began, and
+                                    // have failed with it without a packet of its own)
+                                    let from = started.saturating_sub(request_timeout * (retries as u32 + 1) + Duration::from_millis(50));
+                                    let mine: Vec<_> = v.iter().filter(|(t, _, _)| *t >= from).collect();
+                                    !mine.is_empty() && mine.iter().all(|(_, o, _)| matches!(o, Some(j) if *j != k))
+                                }
+                                None => false,
+                            })
+                            .map(|(_, _, x)| format!("{}=node{}", hx(&x[..4]), s.w.node_by_id(x).unwrap())).collect();
+                        rep.count("sys_overlapping_lookups_judged_per_lookup");
+                        if !others_only.is_empty() {
+                            s.flag(rep, Focus::C10, "C10:candidate-left-to-another-lookup", format!("a lookup running next to others returned {} nodes without being cut off, yet {} candidates named in answers to its own requests only ever got requests of other lookups ({:?})", result.len(), others_only.len(), &others_only[..others_only.len().min(4)]), json!({"overlapping": k + 1, "target": hx(target)}));
+                        }
                     }
                 }
             }
